@@ -25,6 +25,7 @@ type SpecEnv struct {
 	reveal map[string]bool
 	inOld  bool
 	entryTop string // allocator position at the entry of the function whose contract is evaluated
+	atEntry  bool   // evaluating the preconditions assumed at the entry of the function under verification
 }
 
 func (e *SpecEnv) with(vars map[string]Val) *SpecEnv {
@@ -928,6 +929,14 @@ func (e *SpecEnv) call(x *ECall) Val {
 			rt = MathInt
 		}
 		return Val{T: rt, C: []string{v.C[1]}}
+	case "exclusive":
+		// ownership transfer: at a call site the object must have been allocated by the calling function itself
+		// (nobody outside can hold a reference to it); as an assumed precondition it carries no information
+		if e.atEntry {
+			return boolVal("true")
+		}
+		v := e.eval(x.Args[0])
+		return boolVal(sx(">", v.C[0], e.fx.entryTop))
 	case "fresh":
 		v := e.eval(x.Args[0])
 		// allocated after function entry
